@@ -174,9 +174,9 @@ class Folder:
             return v
         if isinstance(e, ast.UnaryOp) and isinstance(e.op, ast.Not):
             return not self._e(modname, e.operand, env, cls, depth)
-        if isinstance(e, ast.Subscript) and isinstance(e.slice, ast.Constant):
+        if isinstance(e, ast.Subscript) and not isinstance(e.slice, ast.Slice):
             try:
-                return self._e(modname, e.value, env, cls, depth)[e.slice.value]
+                return self._e(modname, e.value, env, cls, depth)[self._e(modname, e.slice, env, cls, depth)]
             except Unfoldable:
                 raise
             except Exception as ex:
